@@ -11,8 +11,10 @@ pub static C09: C09C = C09C;
 pub const STRINGS: &[&str] = &[
     "", " ", "a", "abc", "abcabc", "é", "héllo", "日本", "a😀b", " 12 ", "12", "-1.5", "+1", "1e3", "1E3", ".5", "5.", "0x10", "Infinity", "-Infinity", "NaN", "a b  c",
     "\t\n x ", "1 2", "-", ".", "12abc", "bca",
+    // white space that is not XML white space: never trimmed by number(), never collapsed by normalize-space()
+    "\u{a0}12", "12\u{3000}", "\u{2003}1\u{2028}", "\u{85}7", "\u{c}7", "1\u{a0}2", " \u{a0} ",
 ];
-pub const STRINGS_SMALL: &[&str] = &["", "a", "abcabc", "héllo", "a😀b", " 12 ", "b"];
+pub const STRINGS_SMALL: &[&str] = &["", "a", "abcabc", "héllo", "a😀b", " 12 ", "b", "\u{a0}12"];
 
 pub fn numbers() -> Vec<Expr> {
     let mut v: Vec<Expr> = vec![];
@@ -397,8 +399,8 @@ impl Check for C09C {
     fn meta(&self) -> Meta {
         Meta {
             rule: "full products of the core functions and operators with argument tuples from a string pool (empty, white space, ASCII, 2-/3-/4-byte characters, numeric-looking in every lexical form incl. padded, signed, exponent, hex, Infinity, NaN) and a number pool (+-0, halves, integers, 2^53, 1e21, 1e-7, 0.1+0.2, NaN, +-Infinity, spelled as literals or constant expressions) and booleans: every unary function over every value; every binary string function over all string pairs; concat/translate over all triples of a sub-pool; substring over string x start x length; the five arithmetic operators over all number pairs plus string/boolean coercion; the six comparison operators over all value pairs of every type combination; and/or; sum/count/number/string/comparisons over five node-sets with numeric-looking text; every function one argument below and above its arity. Each expression is rendered from its AST, evaluated by xml_xpath::query and by the reference evaluator (mc/src/model/xpath.rs); values compare exactly (numbers bitwise, NaN canonical). Non-trivial = the implementation returned a value.",
-            bounds_quick: "28 strings, 33 numbers, 2 booleans; comparison pool 30 values; substring over 7 strings x 16 x 16",
-            bounds_thorough: "as quick, plus comparisons and and/or over all pairs of the 63 values, substring over 28 strings x 33 starts x 16 lengths and 7 strings x 33 x 33, every composition of two unary functions over every value, translate / concat over 28 x 28 x 7 strings, every expression with two arithmetic operators (both groupings) over 16^3 numbers, comparisons of comparisons, string functions with number / boolean arguments",
+            bounds_quick: "35 strings (7 with white space that is not XML white space), 33 numbers, 2 booleans; comparison pool 30 values; substring over 8 strings x 16 x 16",
+            bounds_thorough: "as quick, plus comparisons and and/or over all pairs of the 70 values, substring over 35 strings x 33 starts x 16 lengths and 8 strings x 33 x 33, every composition of two unary functions over every value, translate / concat over 35 x 35 x 8 strings, every expression with two arithmetic operators (both groupings) over 16^3 numbers, comparisons of comparisons, string functions with number / boolean arguments",
             assumptions: &["trusts the reference core library (DESIGN.md Appendix C)"],
             unbounded_total: false,
         }
